@@ -32,7 +32,7 @@ PROPS = {
         "unit; only minimum-liquidity LP is held): those are not theorems. The inequality is also evaluated on the "
         "implementation's snapshots by the Coq monitor mon_C01 after every operation of every generated history (pools sharing "
         "denoms, LP denoms used as pool assets, donations, odd single-asset deposits, routes, faults).",
-        monitor="mon_C01s"),
+        monitor="mon_C01f"),
     "C02": P("Props/C02.v", [("pool-scn", 48, 600), ("chain-pool", 32, 400), ("probe-scn", 15, 60)],
         "Constant product: proved (mint = min of the two proportional shares, never more than proportional in either asset, hence "
         "x*y/S^2 never decreases through a deposit; first deposit isqrt(a*b)); withdrawals (both pool types): the handler pays "
